@@ -164,7 +164,7 @@ def sweep_case(case, rec, ssj, trace=None):
                 lost = req - got
                 if lost:
                     rec.violation('chunking', tag + 'n_jobs=%r loses qualifying pair(s) %r that the '
-                                  'model requires' % (nj, sorted(lost)[:3]), case=dict(case, n_jobs=nj))
+                                  'model requires' % (nj, sorted(lost, key=repr)[:3]), case=dict(case, n_jobs=nj))
                 rec.count('required_pairs_checked', len(req))
             continue
         got = rows_of(df)
